@@ -94,6 +94,19 @@ func (p c20) Gen(r *simhook.Rand, tier string, idx int) harness.Scenario {
 		}
 		sc.Class = "conn-limit"
 	}
+	if r.Chance(1, 3) && len(sc.Conns) > 0 {
+		// a client that goes away in the middle of its pipeline: requests it has sent are still on their way
+		// through the proxy when its connection ends
+		cs := &sc.Conns[r.Intn(len(sc.Conns))]
+		if n := len(cs.Reqs); n > 1 {
+			cs.LeaveAfter = 1 + r.Intn(n-1)
+			cs.MaxOut = 0
+			for i := range cs.Reqs {
+				cs.Reqs[i].Wait = false
+			}
+			sc.Class += "+leave"
+		}
+	}
 	sc.IdleFaults = false
 	if r.Chance(1, 2) {
 		sc.EndStop = true
@@ -183,7 +196,7 @@ func (p c20) Run(t *testing.T, s harness.Scenario) harness.Outcome {
 			return nil
 		}
 		for _, c := range w.env.Clients {
-			if c.Connected && !c.EOF && !c.Reset && sc.EndStop {
+			if c.Connected && !c.EOF && !c.Reset && !c.Left && sc.EndStop {
 				return nil // the proxy has not closed this connection: C09's subject
 			}
 		}
